@@ -1841,7 +1841,7 @@ class ClearDynamicallyDefinedDataIdentifierRequest(
 
     @property
     def pdu(self) -> bytes:
-        if self.dynamically_defined_data_identifier is None:
+        if self.dynamically_defined_data_identifier is not None:
             return pack(
                 "!BBH",
                 self.SERVICE_ID,
@@ -1862,7 +1862,7 @@ class ClearDynamicallyDefinedDataIdentifierRequest(
         if len(pdu) > 2:
             dynamically_defined_data_identifier = from_bytes(pdu[2:])
 
-        return cls(dynamically_defined_data_identifier)
+        return cls(dynamically_defined_data_identifier, cls.suppress_response_set(pdu))
 
 
 class DynamicallyDefineDataIdentifier(
